@@ -162,13 +162,15 @@ func executeState(c *hx.Case) (*hx.Result, error) {
 	}
 	stopped := make(chan struct{})
 	go func() { opr.Start(ctx); close(stopped) }()
-	defer func() {
+	defer func() { // runs BEFORE the deferred RemoveAll: the operator's Start has returned (database closed) before its directory goes
 		cancel()
 		select {
 		case <-stopped:
 		case <-time.After(waitFor):
 		}
 	}()
+	// every request returns (events are their own batch, barriers come from both runners in turn: nothing parks);
+	// the count the handler saw / the ack are recorded synchronously before HandleEvent returns. waitFor = wedged verdict.
 	call := func(sender string, ev *workerpb.Event) error {
 		ret := make(chan error, 1)
 		go func() { ret <- opr.HandleEvent(ctx, sender, ev) }()
